@@ -238,6 +238,10 @@ def gen_scenario(rng, size="small", features=None):
     bad_sel = []
     if rng.chance(1, 2):
         for _ in range(rng.range(1, 2)):
+            if rng.chance(1, 3):
+                # a give whose value cannot be marshalled (abstract without marshal hooks) must raise and leave the channel usable
+                bad_sel.append({"chans": [rng.below(nch)], "bad": rng.choice(["unpackable", "unpackable-nested"]), "fn": rng.choice(["give", "select-give"])})
+                continue
             bad_sel.append({"chans": [rng.below(nch) for _ in range(rng.range(1, 2))], "bad": rng.choice(["keyword", "triple", "badgive", "number"]),
                             "fn": rng.choice(["select", "select", "rselect"])})
     return {"v": GEN_VERSION, "caps": caps, "cons": cons, "prods": prods,
@@ -407,8 +411,15 @@ def render(scn, stall=8):
     bad_sel = scn.get("bad_select") or []
     if bad_sel:
         badx = {"keyword": ":not-a-channel", "triple": "[(chans 0) 1 2]", "badgive": "[:no-chan 1]", "number": "42"}
-        calls = " ".join('(wr f "badselect %d " (try (do (ev/%s %s %s) "returned") ([e] "raised")))'
-                         % (k, b["fn"], " ".join("(chans %d)" % ci for ci in b["chans"]), badx[b["bad"]]) for k, b in enumerate(bad_sel))
+        unp = {"unpackable": "(parser/new)", "unpackable-nested": "[1 @{:p (parser/new)} 2]"}
+
+        def badcall(b):
+            if b["fn"] == "give":
+                return "(ev/give (chans %d) %s)" % (b["chans"][0], unp[b["bad"]])
+            if b["fn"] == "select-give":
+                return "(ev/select [(chans %d) %s])" % (b["chans"][0], unp[b["bad"]])
+            return "(ev/%s %s %s)" % (b["fn"], " ".join("(chans %d)" % ci for ci in b["chans"]), badx[b["bad"]])
+        calls = " ".join('(wr f "badselect %d " (try (do %s "returned") ([e] "raised")))' % (k, badcall(b)) for k, b in enumerate(bad_sel))
         used = sorted(set(ci for b in bad_sel for ci in b["chans"]))
         o.append('(set waiting-for "bad-select")')
         o.append('(ev/thread (fn [&] (def f (logf "bad-select.txt")) %s (file/close f)))' % calls)
@@ -582,8 +593,10 @@ def oracle(scn, res):
         if any(l.endswith(" returned") for l in bl):
             bad.append(("select-bad-clause-accepted", "ev/select with a malformed clause returned normally: %r" % bl))
         elif bl == ["badselect %d raised" % k for k in range(len(bad_sel))] and bu != ["use %d 0" % ci for ci in used]:
-            bad.append(("select-bad-clause-keeps-locks", "an OS thread's ev/select / ev/rselect %r raised on its malformed last clause; another OS thread that then "
-                        "used the thread channels of the earlier clauses (ev/count on %r) got %r%s" % (
+            gv = any(b["fn"] in ("give", "select-give") for b in bad_sel)
+            bad.append(("give-unpackable-keeps-lock" if gv else "select-bad-clause-keeps-locks",
+                        "an OS thread's failing channel operation(s) %r raised (malformed select clause / value that cannot be marshalled); another OS thread that then "
+                        "used the same thread channels (ev/count on %r) got %r%s" % (
                             [(b["fn"], b["chans"], b["bad"]) for b in bad_sel], used, bu,
                             " and never came back (blocked in janet_chan_lock: the failed select left those channels locked)" if not completed else "")))
     late_give = scn.get("late_give") or []
